@@ -2,6 +2,7 @@
 # applies each behaviour-preserving refactoring to /repo, runs EVERY quick check, undoes it.
 # Any VIOLATION here is a false alarm of the machinery.  Results: /tmp/benign_results.txt
 cd /verif
+export VERIF_EVIDENCE_DIR=/tmp/evidence_scratch
 : > /tmp/benign_results.txt
 for d in seeded/benign/*/; do
   id=$(basename $d)
